@@ -31,8 +31,12 @@
 #include "libfive/eval/eval_interval.hpp"
 #include "libfive/oracle/oracle_clause.hpp"
 #include "libfive/render/brep/region.hpp"
+#include "libfive_stdlib.h"
+#include "stdlib_impl.hpp"
+#include <stdexcept>
 
 using namespace libfive;
+#include "gen_stdlib_dispatch.inc"
 
 static const char* OPNAMES[] = {
 #define OPCODE(s, i) #s,
@@ -198,6 +202,16 @@ int main(int argc, char** argv) {
             else if (c == "var") { auto v = Tree::var(); cx.vars.push_back(v); cx.handles.push_back(v); }
             else if (c == "un") cx.handles.push_back(Tree::unary(op_of_name(t[1]), H(t[2])));
             else if (c == "bin") cx.handles.push_back(Tree::binary(op_of_name(t[1]), H(t[2]), H(t[3])));
+            else if (c == "std") {
+                std::vector<Tree> a;
+                for (size_t k = 2; k < t.size(); ++k) a.push_back(H(t[k]));
+                cx.handles.push_back(std_dispatch(std::stoi(t[1]), a));
+            }
+            else if (c == "cstd") {
+                std::vector<Tree> a;
+                for (size_t k = 2; k < t.size(); ++k) a.push_back(H(t[k]));
+                cx.handles.push_back(std_dispatch_c(std::stoi(t[1]), a));
+            }
             else if (c == "remap") cx.handles.push_back(H(t[1]).remap(H(t[2]), H(t[3]), H(t[4])));
             else if (c == "apply") {
                 try { cx.handles.push_back(H(t[1]).apply(H(t[2]), H(t[3]))); }
